@@ -142,6 +142,13 @@ def _replay_3d(seed):
         if res.status == 0 and res.x[3] > 0.15 and np.linalg.matrix_rank(W) == 3:
             cones.append(("gen%d" % tries, W))
     cones.append(("mixed-sign", np.array([[.48, .48, .73], [.32, -.59, -.74], [-.37, .64, -.68]]) / np.linalg.norm(np.array([[.48, .48, .73], [.32, -.59, -.74], [-.37, .64, -.68]]), axis=1, keepdims=True)))
+    # integer-dtype cone matrices (as in the OrderingCone docstring): the only unit normals they can hold are signed axes -> alpha = 1
+    for name, Wi in (("int-orth2", np.eye(2, dtype=int)), ("int-orth3", np.eye(3, dtype=int)), ("int-orth4", np.eye(4, dtype=int)),
+                     ("int-redundant2", np.array([[1, 0], [0, 1], [1, 0]])), ("list-orth3", [[1, 0, 0], [0, 1, 0], [0, 0, 1]])):
+        from vopy.utils import get_alpha_vec
+        for got in (np.asarray(get_alpha_vec(np.array(Wi))).flatten(), np.asarray(OrderingCone(Wi).alpha).flatten()):
+            if not np.allclose(got, 1.0, atol=2e-6):
+                bad.append({"kind": "alpha-int-dtype", "cone": name, "W": np.asarray(Wi).tolist(), "expected": [1.0] * len(got), "got": got.tolist()})
     for name, W in cones:
         cone = OrderingCone(W)
         exp = np.array([R.alpha_float(W, n) for n in range(len(W))])
